@@ -430,14 +430,19 @@ def run_cache_model(tier, seed, rd, fxv, split_remove=False, emit_one_in=1, time
                  "CHECK_DEADLOCK FALSE\nINVARIANTS MemExact UniqueKey NoFlags EvLockFree EmitBehaviour\n"
                  % ("TRUE" if split_remove else "FALSE", emit_one_in))
     r = v.run_tlc("CCRun", "CCRun.cfg", rd, workers=8, timeout=timeout, coverage=False, xmx="8g", spec_dir=sd)
+    # behaviours stay where TLC printed them: only the program name and the position of each line are kept here (the
+    # thorough tier prints millions of behaviours; decoding all of them took tens of gigabytes), `decode_behaviour`
+    # turns the sampled ones into records
     beh = []
-    for line in r.out.splitlines():
-        if line.startswith('"{'):
-            try:
-                beh.append(json.loads(json.loads(line)))
-            except Exception:
-                pass
+    for m in re.finditer(r'^"\{.*$', r.out, re.M):
+        nm = re.search(r'\\"p\\":\\"(\w+)\\"', m.group(0))
+        if nm:
+            beh.append({"p": nm.group(1), "_at": (m.start(), m.end())})
     return r, beh, mprogs, src
+
+
+def decode_behaviour(r, b):
+    return json.loads(json.loads(r.out[b["_at"][0]:b["_at"][1]]))
 
 
 def cache_model_part(tier, seed, rd, fxv):
@@ -455,7 +460,8 @@ def cache_model_part(tier, seed, rd, fxv):
         raise v.ToolError("CacheConc with SplitRemove = TRUE was accepted (the model is vacuous)")
     if not beh:
         raise v.ToolError("CacheConc produced no behaviour: " + r.out[-400:])
-    sel = scengine.sample(beh, 1500 if tier == "quick" else 20000, seed)
+    sel = [decode_behaviour(r, b) for b in scengine.sample(beh, 1500 if tier == "quick" else 20000, seed)]
+    r.out = r.out[-4000:]
     items = [(src[b["p"]], b) for b in sel]
     res = scengine.replay(fxv, rd, "cachemodel", items, par=8, chunk=300)
     dev, examples, conform, traces, events = {}, [], 0, 0, 0
